@@ -152,11 +152,12 @@ fn match_qclass() {
 #[kani::unwind(2)]
 fn typecode_null_constructed() {
     let code: u16 = kani::any();
-    kani::assume(!is_supported_code(code) || code == 10);
+    // every code, also one of a supported type carried as opaque RDATA (RData::NULL(16, ..) is a TXT-typed record)
     let v = RData::NULL(code, crate::rdata::NULL::new(&[]).unwrap());
     assert!(v.type_code() == ref_type_of(code), "type_code of a NULL/unknown-type record");
     assert!(u16::from(v.type_code()) == code);
     kani::cover!(code == 10);
+    kani::cover!(code == 16);
     kani::cover!(code == 65280);
     let e = RData::Empty(ref_type_of(code));
     assert!(e.type_code() == ref_type_of(code));
